@@ -324,8 +324,14 @@ def _fault_like(world, seed, params, mode):
     # distinct non-trivial: (request kind, statement shape at the fault
     # point, fault kind, outcome) -- recorded per run as a signature set
     shape = '|'.join('%s%s' % (o[2][:3], o[3]) for o in run.ordinals)
-    out['signatures'] = ['%s:%s' % (R['kind'], __import__('hashlib').sha256(
-        (shape + str(run.twin_status)).encode()).hexdigest()[:12])]
+    entry = '%s:%s' % (R['kind'], __import__('hashlib').sha256(
+        (shape + str(run.twin_status)).encode()).hexdigest()[:12])
+    # one signature per fault point that actually fired, keyed by the corpus
+    # entry's (request kind, statement shape, twin status)
+    out['signatures'] = ['%s@%s' % (entry, fp)
+                         for fp in run.stats.get('fired_points', [])]
+    out['probes']['corpus_entries'] = 1
+    out['entry_signature'] = entry
     out['log_digest'] = _digest([
         run.setup_ops, workload.op_brief(R), run.twin_status,
         run.ordinals, run.stats['outcomes'], run.stats['faults'],
